@@ -60,8 +60,10 @@ func runC01(l *core.Ledger) {
 
 // successPub is a place where a reply loop publishes a successful outcome.
 type successPub struct {
-	at  ssa.Instruction
-	val ssa.Value
+	at   ssa.Instruction
+	val  ssa.Value
+	node sx.Node // where the path conditions of this outcome are read
+	c    completion
 }
 
 func isErrorType(t types.Type) bool {
@@ -71,35 +73,14 @@ func isErrorType(t types.Type) bool {
 
 func successPubs(rl *replyLoop) []successPub {
 	var out []successPub
-	sx.AllInstrs(rl.fn, func(_ sx.Node, in ssa.Instruction) {
-		switch x := in.(type) {
-		case *ssa.Return:
-			n := len(x.Results)
-			if n >= 2 && isErrorType(x.Results[n-1].Type()) {
-				if c, ok := x.Results[n-1].(*ssa.Const); ok && c.IsNil() {
-					out = append(out, successPub{x, x.Results[0]})
-				}
-			}
-		case *ssa.Store:
-			base, ok := fieldAddrOf(x.Addr, "err")
-			if !ok || !isNamed(base.Type(), core.RootModule, "Async") {
-				return
-			}
-			if c, ok := x.Val.(*ssa.Const); !ok || !c.IsNil() {
-				return
-			}
-			// the reply stored with it: the store to .reply of the same base in this block
-			var rep ssa.Value
-			for _, y := range x.Block().Instrs {
-				if st, ok := y.(*ssa.Store); ok {
-					if b2, ok := fieldAddrOf(st.Addr, "reply"); ok && b2 == base {
-						rep = st.Val
-					}
-				}
-			}
-			out = append(out, successPub{x, rep})
+	for _, c := range completions(rl) {
+		if _, isCall := c.at.(*ssa.Call); isCall {
+			continue // Correctable.set: C11
 		}
-	})
+		if k, ok := c.err.(*ssa.Const); ok && k.IsNil() {
+			out = append(out, successPub{at: c.at, val: c.reply, node: c.node(), c: c})
+		}
+	}
 	return out
 }
 
@@ -255,7 +236,7 @@ func c01Loop(l *core.Ledger, r *rt, rl *replyLoop) {
 				l.Bad("C01-R1", k, pos, "the value returned on success is not (only) the quorum function's result: "+sx.OriginsString(os))
 				continue
 			}
-			if !edgesDominate(rl.fn, trueEdges, sx.NodeOf(p.at)) {
+			if !p.c.under(rl.fn, trueEdges) {
 				l.Bad("C01-R1", k, pos, "a success outcome is reachable without the quorum function having reported a quorum")
 				continue
 			}
